@@ -443,3 +443,32 @@ def plan_c17():
 
 
 PLANS["C17"] = plan_c17()
+
+
+def plan_c20():
+    def jobs(tier, seed):
+        return [
+            {"name": "C20.serde.native", "flavour": "native", "args": ["serde", "values=%d" % T(tier, 5000, 200000)], "shards": 4, "threads": 1, "timeout": 1200},
+            {"name": "C20.serde.asan", "flavour": "asan", "args": ["serde", "values=%d" % T(tier, 1500, 50000)], "shards": 4, "threads": 1, "timeout": 1200},
+            {"name": "C20.serde.miri", "flavour": "miri", "args": ["serde", "values=%d" % T(tier, 1, 3)], "miri_seeds": T(tier, 4, 32), "timeout": 1500},
+        ]
+
+    def ev(merged, results):
+        c = merged["counters"]
+        return {"evaluations": c.get("serde.values", 0), "law_checks": c.get("serde.law_checks", 0),
+                "strategies": ["default", "fallback-only", "rwlock"], "flavours": sorted(set(r["flavour"] for r in results if r["report"]))}
+    return {
+        "level": "exploration",
+        "jobs": jobs,
+        "rule": ("One evaluation = one seeded random value (nested struct with integers, strings incl. escapes and non-ASCII, optional boxed recursion to depth 3, vectors, "
+                 "tuples, char, map, unit, all four enum variant shapes) plus its scalar / string / Option<Vec> parts, pushed through ~95 law checks: container vs "
+                 "pointee serialization (string and token tree) for ArcSwap and ArcSwapOption (Some / None) under the three default-constructible strategies, "
+                 "serialization after a store, deserialization (value and reference count), round trip, a store made from inside the pointee's Serialize impl "
+                 "(snapshot must be unaffected and alive), deserialize_in_place with guards outstanding. Non-trivial: every value; distinct = distinct serialized form."),
+        "evidence": ev,
+        "assumptions": ["serde_json's Value / string rendering is used as the observation of serde's data model (it distinguishes all value shapes generated here)."],
+        "min_evaluations": {"quick": 500, "thorough": 20000},
+    }
+
+
+PLANS["C20"] = plan_c20()
